@@ -95,10 +95,11 @@ Section Run.
     pose proof (Hsegs c p Hc) as Hsg'.
     (* the cell at ip exists *)
     assert (Hcell : exists bc, znth seg ip = Some bc).
-    { apply znth_some. split; [|lia].
+    { apply znth_some. split; [|clear - H1; lia].
       destruct (memz (zlen fr + 1) (ddepths (m_dos m))).
       - destruct (mid_not_done c p Hc _ _ _ Hck Hpos) as [bc [Hbc _]]. apply znth_range in Hbc. lia.
-      - unfold check_seg in Hck. bsplit. pose proof (forallb_memz _ _ _ H3 Hpos) as Hx. cbv beta in Hx. bsplit. lia. }
+      - unfold check_seg in Hck. bsplit. pose proof (forallb_memz _ _ _ H3 Hpos) as Hx. cbv beta in Hx. bsplit.
+        match goal with Hq : (0 <=? ip) = true |- _ => clear - Hq; lia end. }
     destruct Hcell as [bc Hbc].
     unfold exec_instr, fetch_instr. rewrite Hfr, Hsg, Hbc.
     destruct (m_dos m) as [|[[dd dstop] di] dos'] eqn:Edos.
@@ -110,21 +111,21 @@ Section Run.
     rewrite ddepths_cons in *. unfold depth. rewrite Hfr, zlen_cons.
     destruct (abs_depth dd =? zlen fr + 1) eqn:Etop.
     - (* the loop header of this frame *)
-      assert (abs_depth dd = zlen fr + 1) by lia. rewrite H0 in *. rewrite memz_cons, Z.eqb_refl in Hpos. cbn [orb] in Hpos.
+      assert (abs_depth dd = zlen fr + 1) by (clear - Etop; lia). rewrite H0 in *. rewrite memz_cons, Z.eqb_refl in Hpos. cbn [orb] in Hpos.
       destruct (mid_not_done c p Hc _ _ _ Hck Hpos) as [bc' [Hbc' [Hge [Hchild HB]]]].
       rewrite Hbc in Hbc'. inv Hbc'.
       destruct (dstop <=? di).
       + cbn. split; [assumption|]. intros _. apply inv_mk; [exact Hs|].
         cbn [m_frames m_dos m_targets m_ready set_frames set_dos]. eapply (T_loopend c p Hsg'); eassumption.
       + refine (after_op_good single bc' t ts m _ eq_refl _ Hr Ht).
-        unfold exec_op. replace (bc' <? 0) with false by (unfold BOUND_DICTIONARY in Hge; lia).
-        replace (BOUND_DICTIONARY <=? bc') with true by lia.
+        unfold exec_op. replace (bc' <? 0) with false by (clear - Hge; unfold BOUND_DICTIONARY in Hge; lia).
+        replace (BOUND_DICTIONARY <=? bc') with true by (clear - Hge; lia).
         unfold push_frame. destruct (depth m =? p_rec_max p); [apply good_stop; [assumption|discriminate]|].
         cbn. split; [assumption|]. intros _. apply inv_mk; [exact Hs|].
         cbn [m_frames m_dos m_targets m_ready set_frames]. rewrite Hfr, Edos, ddepths_cons, H0.
         eapply (T_docall c p Hsg'); try eassumption. rewrite memz_cons, Z.eqb_refl. reflexivity.
     - (* a do-loop of an outer frame *)
-      assert (Hm : memz (zlen fr + 1) (abs_depth dd :: ddepths dos') = false) by (apply chain_head_notin; [assumption|lia]).
+      assert (Hm : memz (zlen fr + 1) (abs_depth dd :: ddepths dos') = false) by (apply chain_head_notin; [assumption|clear - Etop; lia]).
       rewrite Hm in Hpos.
       assert (G0 : good (exec_op true single p e (set_frames m ((w, ip + 1) :: fr)) bc)).
       { eapply (exec_op_good c p e Hc m w ip fr sw seg); try eassumption. rewrite Edos, ddepths_cons. assumption. }
